@@ -377,8 +377,10 @@ func (m *Manager) Poll() error {
 	m.stateMu.Lock()
 	defer m.stateMu.Unlock()
 
-	// Check if we were woken during poll
-	if m.state.Load().(State) == StateAwake {
+	// Only the poll that is still current may end: if a wake (possibly followed
+	// by a new sleep) completed while the lock was released, this poll is stale
+	// and must neither disconnect nor put the agent back to sleep.
+	if m.state.Load().(State) != StatePolling {
 		return nil
 	}
 
